@@ -35,7 +35,7 @@ class C15(Check):
                   "deterministic, parenthesisation-independent) is evaluated on the implementation's own observations")
     level_note = ("Trusted: Lean kernel (+ propext, Classical.choice, Quot.sound), gen/c15_precedence.py (anchored regexes; lost anchor => tie broken), "
                   "harness/driver. Not proved, only exercised: memory safety/crash-freedom of the C++ (forked children; crashes found on the unchanged "
-                  "tree are known findings F-C15a..e), IEEE arithmetic (Float is opaque to the kernel; no theorem depends on it), parsing beyond the "
+                  "tree: F-C15a/d repaired by 09db53a/13754a5, F-C15b/c known), IEEE arithmetic (Float is opaque to the kernel; no theorem depends on it), parsing beyond the "
                   "precedence table (covered by the two printings). Outside the modelled domain (reported as skipped_unmodelled, not compared): C++ "
                   "undefined conversions (static_cast<int> out of range, shifts >= 32), ToString of containers, natives called with arguments the "
                   "function wrapper would convert, callbacks that mutate the array being iterated, sort with a comparator, references, namespaces, "
@@ -318,12 +318,6 @@ class C15(Check):
         if finding.kind != "spec" or "clause=no_crash" not in d.get("driver", ""):
             return False
         text, obs, cls = d.get("text", ""), d.get("obs", ""), entry.get("classifier")
-        if cls == "c15_int_modulo_traps":
-            # SIGFPE and the program contains a `%` / `%=` (int division by a truncated-to-zero divisor or INT_MIN % -1)
-            return "sig=8" in obs and re.search(r"%", text) is not None
-        if cls == "c15_array_minus_empty_null_deref":
-            # SIGSEGV, the program subtracts (binary `-` / `-=`), and it neither sorts with a comparator nor inserts a container into itself
-            return "sig=11" in obs and re.search(r"\S\s+-=?\s+\S", text) is not None and ".sort((" not in text and ".add(" not in text
         if cls == "c15_sort_comparator_not_strict_weak":
             return "sig=11" in obs and re.search(r"\.sort\(\s*\(?\(", text) is not None
         if cls == "c15_cyclic_container_recursion":
